@@ -20,7 +20,7 @@ Inductive prep_outcome :=
 | PrepOk        (* RESULT: re-execute on the same host *)
 | PrepErr       (* ERROR: move on to the next host *)
 | PrepLost      (* the connection dropped while the PREPARE was pending *)
-| PrepSendFail. (* the PREPARE could not be sent (connection closing / streams exhausted) *)
+| PrepSendFail. (* the PREPARE could not be sent (connection closing / streams exhausted): the request moves on, as after PrepErr *)
 
 Inductive outcome :=
 | OResult                        (* any non-ERROR frame *)
@@ -97,10 +97,9 @@ Fixpoint exec_gen (dec : bool -> err_info -> Z -> N) (fuel : nat) (idem : bool) 
                 else if N.eqb d dec_RetrySame then cont false true
                 else ([Sent next h j o], Some (RpError h j))
             | OUnprepared PrepOk => cont false false
-            | OUnprepared PrepErr => cont true false
+            | OUnprepared PrepErr | OUnprepared PrepSendFail => cont true false
             | OUnprepared PrepLost | OLost =>
                 if idem then cont true false else ([Sent next h j o], Some RpConnLost)
-            | OUnprepared PrepSendFail => ([Sent next h j o], Some (RpError h j))
             end
           else
             (* Session.Send failed: the loop goes round again, now moving to the next host *)
@@ -155,7 +154,7 @@ Definition safe_to_resend (o : outcome) : bool :=
   | OError m =>
       let c := e_code m in
       (c =? ErrorCodeUnavailable) || (c =? ErrorCodeIsBootstrapping) || (c =? ErrorCodeReadTimeout)
-  | OUnprepared PrepOk | OUnprepared PrepErr => true
+  | OUnprepared PrepOk | OUnprepared PrepErr | OUnprepared PrepSendFail => true
   | _ => false
   end.
 
